@@ -24,10 +24,10 @@ ASSUMPTIONS = [
 
 
 def check(ctx):
-    sched_worker.check_shut(ctx)
-    sched_worker.check_wrk1(ctx)
-    sched_worker.check_wait_sent(ctx)
-    sched_rel.check_lock(ctx)
+    ctx.run(sched_worker.check_shut)
+    ctx.run(sched_worker.check_wrk1)
+    ctx.run(sched_worker.check_wait_sent)
+    ctx.run(sched_rel.check_lock)
 
 
 from ..variants import sched as _v   # noqa: E402
